@@ -2,7 +2,7 @@
 import collections
 import itertools
 
-from .. import world, drivers, preds, sweep, common
+from .. import world, drivers, preds, sweep, common, runner
 from .. import oracles as O
 
 SPEC = {
@@ -174,7 +174,8 @@ def run(case):
             # a value-less source u, its successor v carrying 2 less than it needs, and -2 on the arc (u, v): explained only if the stray -2 is
             # taken for a route weight (the guessed weights are read from every arc that has the attribute)
             srcs = [v_ for v_ in V if not any(e_[1] == v_ for e_ in A)]
-            for (u_, v_) in [e_ for e_ in A if e_[0] in srcs][:2]:
+            # (DAG class only: the instance is infeasible by construction, and the cyclic minimum search spends minutes proving that for every k)
+            for (u_, v_) in ([] if cyc else [e_ for e_ in A if e_[0] in srcs][:2]):
                 if use0["node_w"][v_] is None or use0["node_w"][u_] is None or use0["node_w"][v_] - use0["node_w"][u_] < 3:
                     continue
                 d = dict(use0, node_w=dict(use0["node_w"]), arcs=[[x[0], x[1], (-2 if (x[0], x[1]) == (u_, v_) else None)] for x in use0["arcs"]])
@@ -304,6 +305,7 @@ def run(case):
         else:
             kws = [{"weight_type": "int"}, {"weight_type": "float"}]
         for kw0 in kws:
+            runner.kick()   # the watchdog is per solve pair, not per case (a case runs dozens of variants)
             nkw_full = dict(kw0)
             nkw_full[okey] = "node"
             nkw_full.update(nkw)
